@@ -27,31 +27,40 @@ pub open spec fn vars_view(m: Map<String, VariableValue>) -> Map<String, VarSpec
 }
 
 /// C01: "Each path variable the handler receives equals the corresponding request path segment, and a trailing
-/// wildcard variable receives the list of all remaining segments (possibly empty)": the node a segment list
-/// leads to and the variables bound on the way.  A literal edge is taken only by the identical segment.
-pub open spec fn walk<C: ServerContext>(n: HttpRouterNode<C>, segs: Seq<String>, vars: Map<String, VarSpec>)
+/// wildcard variable receives the list of all remaining segments (possibly empty)": the node that the segments of a
+/// request path lead to, and the variables bound on the way.  A literal edge is taken only by the identical segment.
+pub open spec fn walk_to<C: ServerContext>(n: HttpRouterNode<C>, segs: Seq<String>, vars: Map<String, VarSpec>)
     -> Option<(HttpRouterNode<C>, Map<String, VarSpec>)>
     decreases segs.len(), n
 {
     if segs.len() == 0 {
-        match n.edges {
-            // the wildcard consumes the implicit, empty remainder
-            Some(HttpRouterEdges::VariableRest(name, child)) => Some((*child, vars.insert(name, VarSpec::Comps(Seq::empty())))),
-            _ => Some((n, vars)),
-        }
+        Some((n, vars))
     } else {
         match n.edges {
             None => None,
             Some(HttpRouterEdges::Literals(m)) =>
-                if m@.contains_key(segs[0]) { walk(*m@[segs[0]], segs.skip(1), vars) } else { None },
+                if m@.contains_key(segs[0]) { walk_to(*m@[segs[0]], segs.skip(1), vars) } else { None },
             Some(HttpRouterEdges::VariableSingle(name, child)) =>
-                walk(*child, segs.skip(1), vars.insert(name, VarSpec::Str(segs[0]))),
+                walk_to(*child, segs.skip(1), vars.insert(name, VarSpec::Str(segs[0]))),
             Some(HttpRouterEdges::VariableRest(name, child)) =>
-                // all remaining segments: `seq![segs[0]] + segs.skip(1)` IS `segs` (lemma wildcard_gets_all); written this way
-                // so that the proof never needs to name the whole remaining list
+                // all remaining segments: `seq![segs[0]] + segs.skip(1)` IS `segs` (lemma wildcard_gets_all); written this
+                // way so that the proof never needs to name the whole remaining list
                 Some((*child, vars.insert(name, VarSpec::Comps(seq![segs[0]] + segs.skip(1))))),
         }
     }
+}
+/// a path may also end AT the parent of a trailing wildcard: the wildcard then receives the empty list
+pub open spec fn end_step<C: ServerContext>(n: HttpRouterNode<C>, vars: Map<String, VarSpec>) -> (HttpRouterNode<C>, Map<String, VarSpec>) {
+    match n.edges {
+        Some(HttpRouterEdges::VariableRest(name, child)) => (*child, vars.insert(name, VarSpec::Comps(Seq::empty()))),
+        _ => (n, vars),
+    }
+}
+/// known finding F5 (known_findings.txt `shadowed_by_wildcard`): the path ends at a node that has endpoints of its
+/// own AND a trailing-wildcard child.  The property says the node's own endpoints serve that path; lookup_route
+/// always descends into the wildcard child, so they are unreachable.
+pub open spec fn shadowed_by_wildcard<C: ServerContext>(n: HttpRouterNode<C>) -> bool {
+    n.edges is Some && n.edges->Some_0 is VariableRest && (exists|k: String| #[trigger] n.methods@.contains_key(k))
 }
 
 /// the endpoints a node holds for a method name (none: empty list)
@@ -78,12 +87,34 @@ proof fn sentinel_v10_prelude_consistent()
 }
 proof fn sentinel_walk_not_always_none<C: ServerContext>(n: HttpRouterNode<C>, segs: Seq<String>)
     requires wf_node(n)
-    ensures walk(n, segs, Map::empty()) is None
+    ensures walk_to(n, segs, Map::empty()) is None
 {}
 proof fn sentinel_walk_not_always_some<C: ServerContext>(n: HttpRouterNode<C>, segs: Seq<String>)
     requires wf_node(n)
-    ensures walk(n, segs, Map::empty()) is Some
+    ensures walk_to(n, segs, Map::empty()) is Some
 {}
+proof fn sentinel_shadowing_not_always<C: ServerContext>(n: HttpRouterNode<C>)
+    requires wf_node(n)
+    ensures shadowed_by_wildcard(n)
+{}
+
+pub proof fn allow_push(e0: HttpError, e1: HttpError, v: Seq<char>)
+    requires own_headers(e1) == own_headers(e0).push(("allow"@, v))
+    ensures forall|t: Seq<char>| allow_has(e1, t) <==> (allow_has(e0, t) || t == v) // @allow_after_push
+{
+    assert forall|t: Seq<char>| allow_has(e1, t) <==> (allow_has(e0, t) || t == v) by {
+        let n0 = own_headers(e0).len() as int;
+        if allow_has(e0, t) {
+            let i = choose|i: int| 0 <= i < own_headers(e0).len() && #[trigger] own_headers(e0)[i] == ("allow"@, t);
+            assert(own_headers(e1)[i] == ("allow"@, t));
+        }
+        if t == v { assert(own_headers(e1)[n0] == ("allow"@, t)); }
+        if allow_has(e1, t) {
+            let i = choose|i: int| 0 <= i < own_headers(e1).len() && #[trigger] own_headers(e1)[i] == ("allow"@, t);
+            if i < n0 { assert(own_headers(e0)[i] == ("allow"@, t)); } else { assert(t == v); }
+        }
+    }
+}
 
 pub proof fn wildcard_gets_all(segs: Seq<String>)
     requires segs.len() > 0
